@@ -54,6 +54,106 @@ func init() {
 		}
 		return c11Run(&req), nil
 	}
+	workerFns["c11alloc"] = func(arg json.RawMessage) (any, error) { return c11AllocProbe(), nil }
+}
+
+// c11AllocProbe (child process): memory handed out by a bank for a type must be memory the
+// collector scans as that type — whatever the type looks like to a record codec (pointers in
+// unexported fields, in arrays, in wrapper structs).  For each type: many ReadBuf.Alloc calls;
+// every pointer word of every allocation (the type descriptor's own bitmap says which) is
+// pointed at a fresh object holding a pattern, and no other reference to that object is
+// kept; collections and churn; then every object is read back through its slot.
+type c11Sealed struct {
+	raw  []byte
+	note string
+	next *int64
+	n    int64
+}
+type c11HalfSealed struct {
+	N   int64 `json:"n"`
+	F   float64
+	raw []byte
+}
+type c11ArrOfPtr struct {
+	n  int32
+	ps [3]*int64
+}
+
+type c11AllocRes struct {
+	Failures []string `json:"failures"`
+	Types    int      `json:"types"`
+	Slots    int      `json:"slots"`
+}
+
+func c11AllocProbe() c11AllocRes {
+	var res c11AllocRes
+	types := []reflect.Type{
+		reflect.TypeOf(c11Sealed{}), reflect.TypeOf(c11HalfSealed{}), reflect.TypeOf(c11ArrOfPtr{}),
+		reflect.TypeOf(time.Time{}), reflect.TypeOf(struct{ P *int64 }{}), reflect.TypeOf([2]string{}),
+		reflect.TypeOf(struct {
+			A int64
+			m map[string]int
+		}{}), reflect.TypeOf(""), reflect.TypeOf([]byte(nil)), reflect.TypeOf(struct {
+			a, b int64
+			i    any
+		}{}),
+	}
+	type slot struct {
+		at   unsafe.Pointer // the pointer word inside the bank's memory
+		want byte
+	}
+	for _, t := range types {
+		mask, _, ok := c11GCMask(t)
+		if !ok {
+			continue
+		}
+		res.Types++
+		rb := avro.NewReadBuf(nil)
+		var slots []slot
+		for i := 0; i < 1500; i++ {
+			p := rb.Alloc(t)
+			for w, isPtr := range mask {
+				if !isPtr {
+					continue
+				}
+				obj := new([64]byte)
+				pat := byte(0x10 + (i+w)%0x70)
+				for k := range obj {
+					obj[k] = pat
+				}
+				at := unsafe.Add(p, w*8)
+				*(*unsafe.Pointer)(at) = unsafe.Pointer(obj)
+				slots = append(slots, slot{at, pat})
+			}
+		}
+		res.Slots += len(slots)
+		runtime.GC()
+		runtime.GC()
+		var keep [][]byte
+		for k := 0; k < 120000; k++ {
+			b := make([]byte, 64)
+			for j := range b {
+				b[j] = 0xEE
+			}
+			if k%1000 == 0 {
+				keep = append(keep, b)
+			}
+		}
+		runtime.GC()
+		bad := 0
+		for _, sl := range slots {
+			obj := (*[64]byte)(*(*unsafe.Pointer)(sl.at))
+			if obj[0] != sl.want || obj[63] != sl.want {
+				bad++
+			}
+		}
+		runtime.KeepAlive(rb)
+		runtime.KeepAlive(keep)
+		if bad > 0 {
+			res.Failures = append(res.Failures, fmt.Sprintf("%s: %d of %d objects referenced only from bank memory allocated for this type were reclaimed and reused after a collection", t, bad, len(slots)))
+		}
+	}
+	return res
 }
 
 // ---- types with the notable shapes ------------------------------------------------------------
@@ -906,6 +1006,21 @@ type c11Target struct {
 }
 
 func runC11(r *Run) {
+	{
+		var ar c11AllocRes
+		outcome, msg := isolated("c11alloc", nil, &ar, 120*time.Second)
+		stopWorkers()
+		r.Count("bank-alloc-probe")
+		switch {
+		case outcome != "ok":
+			r.Fail(-1, "bank-memory-not-scanned", "the bank allocation probe did not complete: "+outcome+" "+msg, nil)
+		default:
+			r.Extra["bank_alloc_probe"] = map[string]any{"types": ar.Types, "pointer_slots": ar.Slots}
+			for _, f := range ar.Failures {
+				r.Fail(-1, "bank-memory-not-scanned", f, map[string]any{"how": "ReadBuf.Alloc(type) x1500; every pointer word set to a fresh object; runtime.GC x2; 120000 64-byte allocations; runtime.GC; objects read back"})
+			}
+		}
+	}
 	rng := r.Rng
 	maskOK := c11MaskSelfTest()
 	if !maskOK {
